@@ -1,10 +1,10 @@
-(* Tie/Debian.v — the generated translation of pkg/ecosystem/debian (Gen/Code/Debian.v) against the
-   model (Eco/Debian).  compareDebianVersionString (dpkg verrevcmp loop) is outside
-   the translated fragment: Compare and the range switch are tied generically in it. *)
+(* Tie/Debian.v — VERSION level: the generated translation of pkg/ecosystem/debian
+   (Gen/Code/Debian.v) against the model (Eco/Debian/Version).  compareDebianVersionString (loop) is outside the
+   translated fragment: Compare is tied generically in it.  The range-level ties are in
+   Tie/DebianRange.v (which depends on this file, never the other way round). *)
 From Coq Require Import ZArith List Bool Lia.
 From Verif.Base Require Import Bytes GoNum GoOps Ord.
-From Verif.Eco Require Import RangeCore.
-From Verif.Eco.Debian Require Version Range.
+From Verif.Eco.Debian Require Version.
 From Verif.Gen.Code Require Debian.
 From Verif.Tie Require Import Tactics.
 Import ListNotations.
@@ -29,28 +29,5 @@ Section Compare.
   Theorem tie_debian_compare : forall a b,
     G.Version_Compare compareDebianVersionString a b = Z_of_cmp (M.cmp_core (abs a) (abs b)).
   Proof. tie_solve_with compareDebianVersionString_model. Qed.
-
-  (* range: the operator switch, for any Compare (it stays folded) *)
-  Local Opaque G.Version_Compare.
-  Theorem tie_debian_satisfiesConstraint : forall c v,
-    G.satisfiesConstraint compareDebianVersionString v c =
-    sat (rc_sem Range.cfg (G.constraint_operator c)) (cmp_of_Z (G.Version_Compare compareDebianVersionString v (G.constraint_version c))).
-  Proof. tie_solve. Qed.
-
-  Corollary tie_debian_satisfiesConstraint_model : forall c v,
-    G.satisfiesConstraint compareDebianVersionString v c =
-    sat (rc_sem Range.cfg (G.constraint_operator c)) (M.cmp_core (abs v) (abs (G.constraint_version c))).
-  Proof. intros. rewrite tie_debian_satisfiesConstraint, tie_debian_compare, cmp_of_Z_of_cmp. reflexivity. Qed.
-
-  Theorem tie_debian_contains : forall r v,
-    G.VersionRange_Contains compareDebianVersionString r v =
-    forallb (fun c => sat (rc_sem Range.cfg (G.constraint_operator c)) (M.cmp_core (abs v) (abs (G.constraint_version c))))
-            (G.VersionRange_constraints r).
-  Proof.
-    intros. unfold G.VersionRange_Contains. apply forallb_ext_in. intros c _. apply tie_debian_satisfiesConstraint_model.
-  Qed.
 End Compare.
 Print Assumptions tie_debian_compare.
-Print Assumptions tie_debian_satisfiesConstraint.
-Print Assumptions tie_debian_satisfiesConstraint_model.
-Print Assumptions tie_debian_contains.
